@@ -271,3 +271,111 @@ def decision_list_value(chain, default, kind, k, size):
         if not definitely_zero:
             return ("ambiguous", bit)
     return ("value", default)
+
+
+# ---------------------------------------------------------------------------------------------------------------------
+# structural handlers and memory models
+
+def _byte_getitem():
+    return ast.parse("def __getitem__(self, addr):\n    return __byte__(addr)").body[0]
+
+
+class _StructInterp(_LeafInterp):
+    def ev(self, e, env):
+        if isinstance(e, ast.Call) and isinstance(e.func, ast.Name) and e.func.id == "__byte__":
+            return Term("byte", self.ev(e.args[0], env))
+        if isinstance(e, ast.Subscript) and not isinstance(e.slice, ast.Slice):
+            base = Interp.ev(self, e.value, env)
+            if isinstance(base, dict) and base.get("__self__") and "__getitem__" in self.methods:
+                return self.call_function(self.methods["__getitem__"], [self.ev(e.slice, env)], self_obj=base)
+        return _LeafInterp.ev(self, e, env)
+
+    def translate_leaf(self, x):
+        if isinstance(x, FakeExpr) and x.kind == "id":
+            return Term("leaf", x.name, x.size)
+        return _LeafInterp.translate_leaf(self, x)
+
+
+def handler_term(repo, lang, handler, expr, self_extra=None):
+    rel, cls, hrel = (Z3, "TranslatorZ3", None) if lang == "z3" else (SMT2, "TranslatorSMT2", SMT2H)
+    m = repo.mod(rel)
+    meths = dict((q.split(".", 1)[1], f) for q, f in m.funcs.items() if q.startswith(cls + ".") and q.count(".") == 1)
+    meths["from_expr"] = _leaf_from_expr()
+    funcs = {}
+    if hrel:
+        hm = repo.mod(hrel)
+        funcs = dict((q, f) for q, f in hm.funcs.items() if "." not in q)
+    it = _StructInterp(functions=funcs, methods=meths, consts={})
+    it.sym_truthy = (lang == "smt2")
+    selfobj = {"__self__": True}
+    selfobj.update(_class_consts(m, cls))
+    selfobj.update(self_extra or {})
+    t = it.call_function(meths[handler], [expr], self_obj=selfobj)
+    return deep_parse(t) if lang == "smt2" else t
+
+
+def mem_term(repo, lang, endianness, size, addr_size=32):
+    rel, cls, hrel = (Z3, "Z3Mem", None) if lang == "z3" else (SMT2, "SMT2Mem", SMT2H)
+    m = repo.mod(rel)
+    meths = dict((q.split(".", 1)[1], f) for q, f in m.funcs.items() if q.startswith(cls + ".") and q.count(".") == 1)
+    meths["__getitem__"] = _byte_getitem()
+    funcs = {}
+    if hrel:
+        hm = repo.mod(hrel)
+        funcs = dict((q, f) for q, f in hm.funcs.items() if "." not in q)
+    it = _StructInterp(functions=funcs, methods=meths, consts={})
+    it.sym_truthy = (lang == "smt2")
+    selfobj = {"__self__": True, "endianness": endianness, "mems": {}, "name": "M"}
+    get = meths["get"]
+    nparams = len(get.args.args) - 1
+    addr = Term("leaf", "addr", addr_size)
+    args = [addr, size] + ([addr_size] if nparams >= 3 else [])
+    t = it.call_function(get, args, self_obj=selfobj)
+    return deep_parse(t) if lang == "smt2" else t
+
+
+def concat_list(t, lang):
+    """Pieces of a nest of concatenations, most significant first."""
+    if lang == "z3" and isinstance(t, Term) and t.head == "z3.Concat":
+        out = []
+        for a in t.args:
+            out.extend(concat_list(a, lang))
+        return out
+    if lang == "smt2" and isinstance(t, Term) and t.head == "sx" and len(t.args) >= 3 and t.args[0] == "concat":
+        out = []
+        for a in t.args[1:]:
+            out.extend(concat_list(a, lang))
+        return out
+    return [t]
+
+
+def byte_offset(t, lang):
+    """byte(addr + i) -> i ; byte(addr) -> 0 ; else None"""
+    if not (isinstance(t, Term) and t.head == "byte"):
+        return None
+    a = t.args[0]
+    if isinstance(a, Term) and a.head == "leaf":
+        return 0
+    if lang == "z3" and isinstance(a, Term) and a.head == "op" and a.args[0] == "+":
+        x, y = a.args[1], a.args[2]
+        for l, c in ((x, y), (y, x)):
+            if isinstance(l, Term) and l.head == "leaf" and isinstance(c, int):
+                return c
+    if lang == "smt2" and isinstance(a, Term) and a.head == "sx" and len(a.args) == 3 and a.args[0] == "bvadd":
+        x, y = a.args[1], a.args[2]
+        for l, c in ((x, y), (y, x)):
+            cc = _smt_const(c)
+            if isinstance(l, Term) and l.head == "leaf" and cc is not None:
+                return cc[0]
+    return None
+
+
+def extract_of(t, lang):
+    """(hi, lo, inner) for an extract term, else None"""
+    if lang == "z3" and isinstance(t, Term) and t.head == "z3.Extract" and len(t.args) == 3:
+        return t.args[0], t.args[1], t.args[2]
+    if lang == "smt2" and isinstance(t, Term) and t.head == "sx" and len(t.args) == 2 and isinstance(t.args[0], Term) and t.args[0].head == "sx":
+        ex = t.args[0].args
+        if len(ex) == 4 and ex[0] == "_" and ex[1] == "extract" and str(ex[2]).lstrip("-").isdigit() and str(ex[3]).lstrip("-").isdigit():
+            return int(ex[2]), int(ex[3]), t.args[1]
+    return None
